@@ -26,6 +26,13 @@ func ConstraintsUniverse() *Universe {
 	pinc := u.Record("PWithInc", []*Type{inc}, Req("own", P(Int32)), Opt("nested", inner))
 	p2 := u.Record("P2", nil, Req("nreq", inner), Opt("m", MapOf(P(String))))
 	u.Wrappers = append(u.Wrappers, inner, inc, p4, pinc, p2)
+	// includes two levels deep, and a record-typed field that arrives through an include
+	proot := u.Record("PRoot", nil, Req("rootReq", P(Int32)), Opt("rootOpt", P(String)))
+	pmid := u.Record("PMid", []*Type{proot}, Opt("midOpt", P(Int32)))
+	pleaf := u.Record("PLeaf", []*Type{pmid}, Req("leafReq", P(Int32)), Opt("leafOpt", P(String)))
+	pbase := u.Record("PBaseRec", nil, Opt("baseInner", inner), Opt("b", P(Int32)))
+	pouter := u.Record("POuterRec", []*Type{pbase}, Opt("name", P(String)))
+	u.Wrappers = append(u.Wrappers, proot, pmid, pleaf, pbase, pouter)
 	return u
 }
 
